@@ -203,23 +203,42 @@ def run_exh(ctx, prop, crates=("stylua_lib", "stylua")):
 
 def _groupfill(prog, sub, cfg):
     f = prog.fn("stylua_lib", "sort_requires::partition_nodes_into_groups")
+    if f is not None:
+        from inline import inlined, small_helper
+        f = inlined(prog, f, small_helper(prog, keep=r"extract_identifier_from_token$|get_expression_kind$"))
     if not sub.anchor(f is not None, "sort_requires::partition_nodes_into_groups", cfg):
         return
-    # every aggregate BlockPartition::RequiresGroup and every push onto a RequiresGroup list is
-    # dominated by the LocalAssignment edge of a switch on Stmt
-    la_blocks = []
-    for bi in range(len(f.blocks)):
-        si = switch_info(f, bi)
-        if si and si["enum"] == "full_moon::ast::Stmt" and "LocalAssignment" in si["targets"]:
-            la_blocks.append(si["targets"]["LocalAssignment"])
-    n = 0
+    # every construction of a BlockPartition::RequiresGroup happens in a loop iteration whose statement is known to be a
+    # Stmt::LocalAssignment (path enumeration: the match may sit in a classifying helper that returns an Option)
+    from paths import Enumerator, TooManyPaths, first_iteration
+    agg_blocks = {}
     for bi, sidx, s in f.stmts():
         if s["k"] == "assign" and s["rv"]["k"] == "agg" and s["rv"].get("variant") == "RequiresGroup":
-            n += 1
-            ok = any(f.dominates(lb, bi) for lb in la_blocks)
-            sub.inst(f"{f.key} RequiresGroup-construct", {"fn": f.key, "at": f.loc(s["sp"])}, cfg, ok=ok)
-            if not ok:
-                sub.violation(f"{f.key} RequiresGroup-construct-unguarded",
-                              "a RequiresGroup is built outside the LocalAssignment arm: sort_requires's "
-                              "`_ => unreachable!()` becomes reachable", f.loc(s["sp"]), cfg)
-    sub.floor("RequiresGroup constructions", n, 1, cfg)
+            agg_blocks[bi] = s
+    sub.floor("RequiresGroup constructions", len(agg_blocks), 1, cfg)
+    if not agg_blocks:
+        return
+    try:
+        pres = Enumerator(f, summaries=False, max_visits=2, max_paths=60000).run()
+    except TooManyPaths:
+        sub.anchor(False, "partition_nodes_into_groups: too many paths", cfg)
+        return
+    nexts = [b for b, t in f.calls() if callee(t).endswith("Iterator>::next") or callee(t).endswith("Iterator::next")]
+    n = 0
+    bad = False
+    for st in pres:
+        head = next((b for b, c, t in st.calls if b in nexts), None)
+        if head is None:
+            continue
+        calls1, blocks1, hist1 = first_iteration(st, head)
+        if not (blocks1 & set(agg_blocks)):
+            continue
+        n += 1
+        if not any(v == "LocalAssignment" for k, v in hist1):
+            bad = True
+    s0 = list(agg_blocks.values())[0]
+    sub.inst(f"{f.key} RequiresGroup-construct", {"fn": f.key, "at": f.loc(s0["sp"]), "paths": n}, cfg, ok=not bad and n > 0)
+    if bad or n == 0:
+        sub.violation(f"{f.key} RequiresGroup-construct-unguarded",
+                      "a RequiresGroup is built in an iteration whose statement is not known to be a LocalAssignment: "
+                      "sort_requires's `_ => unreachable!()` becomes reachable", f.loc(s0["sp"]), cfg)
